@@ -570,3 +570,86 @@ func RunProcGapCase(seed int64, workDir string, variant int) *HistResult {
 	}
 	return res
 }
+
+// RunProcTwoTaskCase (C20): a job with two tasks running at the same time, one whose process dies on the interrupt at
+// once and one whose tree ignores it, is canceled. "Reported finished" is the first instant at which the job is reported
+// completed OR canceled (for a job that had started, the two must coincide): nothing of it may be alive then.
+func RunProcTwoTaskCase(seed int64, workDir string, variant int) *HistResult {
+	res := &HistResult{Seed: seed, Situations: map[string]map[string]struct{}{}, Evaluations: map[string]int{}}
+	find := func(sig, format string, args ...any) {
+		res.Findings = append(res.Findings, Finding{Props: []string{"C20"}, Sig: sig, Detail: fmt.Sprintf(format, args...), Step: -1})
+	}
+	dir, err := os.MkdirTemp(workDir, "two-")
+	if err != nil {
+		res.Inconclusive = err.Error()
+		return res
+	}
+	defer os.RemoveAll(dir)
+	killTimeout := 300 * time.Millisecond
+	stubborn := []string{`PXV_MARK={{.mark}} bash -c 'trap "" INT; sleep 300 & sleep 301; wait'`, `PXV_MARK={{.mark}} bash -c 'trap "" INT; sleep 300'`}[variant%2]
+	def := definition.PipelineDef{Concurrency: 1, SourcePath: "gen", Tasks: map[string]definition.TaskDef{
+		"quick":    {Script: []string{"PXV_MARK={{.mark}} sleep 302"}},
+		"stubborn": {Script: []string{stubborn}},
+	}}
+	specs := []gen.PipeSpec{{Name: "two", Def: def, Graph: gen.Graph{Names: []string{"quick", "stubborn"}, Deps: map[string][]string{}}}}
+	sys, _, _, err := realSys(specs, dir, killTimeout)
+	if err != nil {
+		res.Inconclusive = err.Error()
+		return res
+	}
+	defer sys.Close()
+	mark := fmt.Sprintf("t%d-%d", os.Getpid(), seed&0xffffff)
+	defer func() {
+		for _, pid := range scanMarked(mark) {
+			if p, err := os.FindProcess(pid); err == nil {
+				_ = p.Kill()
+			}
+		}
+	}()
+	id, cls := sys.Schedule(0, "two", map[string]interface{}{"mark": mark}, "u")
+	if cls != "ok" {
+		res.Inconclusive = "schedule: " + cls
+		return res
+	}
+	want := 2 + (1 - variant%2)
+	deadline := time.Now().Add(15 * time.Second)
+	for len(scanMarked(mark)) < want {
+		if time.Now().After(deadline) {
+			res.Inconclusive = "process trees did not come up"
+			return res
+		}
+		time.Sleep(2 * time.Millisecond)
+	}
+	time.Sleep(30 * time.Millisecond) // let bash install its trap (shaping only)
+	t0 := time.Now()
+	viaShutdown := (variant/2)%2 == 1
+	if viaShutdown {
+		ctx, cancel := context.WithCancel(context.Background())
+		cancel()
+		go func() { _ = sys.Shutdown(0, ctx, "forced") }()
+	} else if c := sys.Cancel(0, id); c != "ok" {
+		find("C20:cancel-result", "cancel returned %q", c)
+	}
+	j, _ := sys.ReadJob(id)
+	reported := false
+	for i := 0; i < 20000; i++ {
+		if jj, ok := sys.ReadJob(id); ok && (jj.Completed || jj.Canceled) {
+			j, reported = jj, true
+			break
+		}
+		time.Sleep(500 * time.Microsecond)
+	}
+	alive := scanMarked(mark)
+	res.sit("C20", fmt.Sprintf("two tasks running, one ignores the interrupt; via shutdown=%v script %d", viaShutdown, variant%2))
+	res.Evaluations["C20"]++
+	if !reported {
+		find("C20:canceled-job-never-reported-finished", "a job with two running tasks was canceled and is not reported finished 10 s later")
+		return res
+	}
+	res.journalf("two tasks: reported completed=%v canceled=%v after %v with %d processes alive", j.Completed, j.Canceled, time.Since(t0).Round(time.Millisecond), len(alive))
+	if len(alive) > 0 {
+		find("C20:alive-at-report:two-tasks-one-ignores-int", "a job with two running tasks (one dies on the interrupt, one ignores it) is reported completed=%v canceled=%v %v after the cancel while %d of its processes are alive: %s", j.Completed, j.Canceled, time.Since(t0).Round(time.Millisecond), len(alive), describePids(alive))
+	}
+	waitJobs(sys, []string{id}, 20*time.Second)
+	return res
+}
